@@ -351,6 +351,15 @@ def _pure_attr(modname: str, name: str):
         return _Spec(call, f"{modname}.{name}")
     if isinstance(v, (str, bytes, int, float, tuple, frozenset, dict, list, set)) or (modname == "re" and isinstance(v, int)):
         return v
+    if modname == "itertools" and isinstance(v, type) and name not in ("count", "cycle", "repeat"):
+        # itertools' iterator types, over already-evaluated values: lazy one-shot iterators like the real ones
+        def make(*a, **k):
+            from .minieval import _as_iterable
+
+            args = [(_as_iterable(x) if (hasattr(x, "sa_iter") or isinstance(x, PyIter)) else x) for x in a]
+            return PyIter(v(*args, **k), f"itertools.{name}")
+
+        return _Spec(make, f"itertools.{name}")
     raise Unsupported(f"external attribute {modname}.{name}")
 
 
